@@ -206,6 +206,32 @@ def rule_state(ctx):
                         hit.append(f"{p_} (handed to {callee.name}({pname}=), which writes into it, line {n.lineno})")
         ctx.check(not hit, 'R08.3/fit-arguments-unchanged', f.construct('arguments'), "no array rooted in an argument of fit() is written to, directly or by a callee",
                   "fit() writes into its caller's array: " + "; ".join(sorted(set(hit))) + " - a repeated fit with the same inputs starts from a changed state", f.where())
+    # a sampler object is configuration only: every attribute its methods read is a declared dataclass field, and none is written
+    # (a cache or memo kept on the object outlives the fit that filled it: the next fit with other reads starts from it)
+    for cq in ('mchap.assemble.mcmc.DenovoMCMC', 'mchap.calling.classes.CallingMCMC', 'mchap.pedigree.classes.PedigreeCallingMCMC'):
+        c = ctx.prog.cls(cq)
+        fields = set(c.fields)
+        for base in c.bases:
+            bq = ctx.prog.resolve_name(c.module, base) if hasattr(ctx.prog, 'resolve_name') else None
+            bc = ctx.prog.classes.get(bq) if bq else None
+            if bc is None:
+                bc = next((k for k in ctx.prog.classes.values() if k.qname.endswith('.' + base)), None)
+            if bc is not None:
+                fields |= set(bc.fields)
+        methods = set(c.methods)
+        bad = []
+        for mname, mf in sorted(c.methods.items()):
+            for n in ast.walk(mf.node):
+                if isinstance(n, ast.Attribute) and isinstance(n.value, ast.Name) and n.value.id == 'self':
+                    if isinstance(n.ctx, ast.Store):
+                        bad.append(f"{mname} assigns self.{n.attr} (line {n.lineno})")
+                    elif n.attr not in fields and n.attr not in methods and not n.attr.startswith('__'):
+                        bad.append(f"{mname} reads self.{n.attr}, which is not a declared field (line {n.lineno})")
+            for w in ctx.eff.self_writes[mf.qname]:
+                if isinstance(w, ast.Call):
+                    bad.append(f"{mname} mutates a container held by self (line {w.lineno})")
+        ctx.check(not bad, 'R08.3/sampler-is-configuration', c_construct(c), f"{len(c.methods)} methods: only declared fields of self are read, none is written",
+                  "a sampler object carries state from one fit to the next: " + "; ".join(sorted(set(bad))[:4]), f"{c.module.relpath}:{c.node.lineno}")
     # program attributes written during a locus
     reach = ctx.eff.reachable(BASE + 'call_locus')
     bad = []
@@ -267,6 +293,10 @@ def rule_stdout(ctx):
     writes = [n for n in ctx.eff.stdout[f.qname]]
     ok = len(writes) == 1 and has(writes[0], "sys.stdout.write(_line + '\\n')")
     ctx.check(ok, 'R08.4/whole-lines', f.construct('write'), "writer emits each line with a single write", "writer splits a record over several writes", f.where())
+
+
+def c_construct(c):
+    return f"{c.module.relpath}::{c.qname.split('.')[-1]}::self"
 
 
 def rule_jobs(ctx):
